@@ -168,7 +168,9 @@ pub fn decode(tape: &[u16], internal: bool) -> ACase {
     let role_default = roles[t.below(4)].to_string();
     let role_k2 = roles[t.below(4)].to_string();
     let with_session = t.chance(6, 16);
-    let request_kg = if with_session {
+    // the WebSocket layer sends a session and no graph, REST a graph and no session; the public entry point also
+    // takes both (non-query statements then run on the explicit graph): a third of the session cases do that
+    let request_kg = if with_session && !t.chance(1, 3) {
         None
     } else {
         Some(if internal && t.chance(3, 16) { "_internal".to_string() } else { ["default", "k2"][t.below(2)].to_string() })
@@ -280,7 +282,7 @@ pub fn check(_ctx: &Ctx, c: &ACase, obs: &mut Obs) -> CheckResult {
         }
     }
     // completeness for single statements: a permitted statement must not be refused for lack of permission
-    if c.lines.len() == 1 && c.program.lines().count() == 1 {
+    if c.lines.len() == 1 && c.program.lines().count() == 1 && !(c.with_session && c.request_kg.is_some()) {
         let l = &c.lines[0];
         let cur = c.request_kg.clone().unwrap_or_else(|| KG.to_string());
         let role = role_on(c, &cur);
